@@ -157,6 +157,7 @@ fn c18_encoded_buf_drain_by_chunks() {
     let (rem0, cap) = (p.rem, p.cap);
     let mut ed = Datagram::new(sid, p).encode();
     let (hdr, n) = spec_datagram_hdr(s);
+    check_view(&ed, &hdr, n, rem0, cap, 0);
     let l1 = ed.chunk().len();
     assert!(l1 == n);
     ed.advance(l1);
@@ -181,6 +182,7 @@ fn c18_decode_matches_spec() {
     kani::assume(len <= 9);
     let input: &[u8] = &arr[..len];
     let res = Datagram::<&[u8]>::decode(input);
+    let (ok, err) = (res.is_ok(), res.is_err());
     match spec_datagram_dec(input) {
         Some((sid, off)) => {
             let d = match res {
@@ -201,18 +203,18 @@ fn c18_decode_matches_spec() {
             // the code as the connection layer will see it (public conversion used by h3)
             match h3::error::LocalError::from(e) {
                 h3::error::LocalError::Application { code, .. } => {
-                    assert!(code.value() == SPEC_H3_DATAGRAM_ERROR)
+                    assert!(code.value() == SPEC_H3_DATAGRAM_ERROR);
                 }
                 _ => panic!("not an application error"),
             }
         }
     }
-    kani::cover!(res.is_ok() && len == 9 && arr[0] >= 0xc0);
-    kani::cover!(res.is_ok() && len == 1);
-    kani::cover!(res.is_err() && len == 8 && arr[0] >= 0xc0 && arr[0] < 0xd0); // quarter id >= 2^60
-    kani::cover!(res.is_err() && len == 7); // truncated
-    kani::cover!(res.is_err() && len == 0);
-    kani::cover!(res.is_ok() && len == 8 && arr[0] == 0xcf && arr[7] == 0xff); // q = 2^60 - 1
+    kani::cover!(ok && len == 9 && arr[0] >= 0xc0);
+    kani::cover!(ok && len == 1);
+    kani::cover!(err && len == 8 && arr[0] >= 0xd0); // complete varint, quarter id >= 2^60
+    kani::cover!(err && len == 7); // truncated
+    kani::cover!(err && len == 0);
+    kani::cover!(ok && len == 8 && arr[0] == 0xcf && arr[7] == 0xff); // q = 2^60 - 1
 }
 
 // vp: props=C18; tag=C18.roundtrip; kind=complete; tier=quick
